@@ -278,6 +278,11 @@ type peerRecord struct {
 	BTCSwapOutPremiumRatePPM  int64      `json:"btc_swap_out_premium_rate_ppm,omitempty"`
 	LBTCSwapInPremiumRatePPM  int64      `json:"lbtc_swap_in_premium_rate_ppm,omitempty"`
 	LBTCSwapOutPremiumRatePPM int64      `json:"lbtc_swap_out_premium_rate_ppm,omitempty"`
+	// HasCapability marks a record that was written with a capability, so that
+	// a capability whose fields are all zero is not mistaken for a missing one.
+	// Records written before this field existed are recognised by their non-zero
+	// capability fields.
+	HasCapability bool `json:"has_capability,omitempty"`
 }
 
 func (r *peerRecord) snapshot() *PeerCapabilitySnapshot {
@@ -303,6 +308,7 @@ func (r *peerRecord) applySnapshot(snapshot *PeerCapabilitySnapshot) {
 		return
 	}
 
+	r.HasCapability = true
 	r.Version = snapshot.Version
 	r.Assets = append([]string(nil), snapshot.Assets...)
 	r.PeerAllowed = snapshot.PeerAllowed
@@ -389,7 +395,8 @@ func (r *peerRecord) rehydrateCapability() (*PeerCapability, error) {
 }
 
 func (r *peerRecord) hasCapabilityData() bool {
-	return r.Version != 0 ||
+	return r.HasCapability ||
+		r.Version != 0 ||
 		len(r.Assets) > 0 ||
 		r.PeerAllowed ||
 		r.BTCSwapInPremiumRatePPM != 0 ||
